@@ -106,7 +106,10 @@ pub fn read_to_string<P: AsRef<std::path::Path>>(path: P) -> io::Result<String> 
     };
     let base: io::Result<Vec<u8>> = match mem {
         Some(b) => Ok(b),
-        None if passthrough => std::fs::read(&p),
+        // only the repository's bundled resource tables are read from the real file system; any
+        // other path exists on the simulated disk or not at all (a run must not depend on what
+        // else happens to be on the machine or on the current directory)
+        None if passthrough && p.contains("/resources/") && !p.contains("..") => std::fs::read(&p),
         None => Err(io::Error::new(io::ErrorKind::NotFound, "simulated: no such file")),
     };
     let res = match (base, fault) {
